@@ -55,7 +55,7 @@ static void fix_lengths(Bytes &w, long delta, const Hello &h, bool in_ext) {
 }
 
 static void prop(Tape &t, Ctx &c) {
-    int family = (int) t.below(10); family = family < 4 ? 0 : family < 5 ? 3 : family < 6 ? 1 : 2;
+    int family = (int) t.below(12); family = family < 4 ? 0 : family < 5 ? 3 : family < 6 ? 1 : family < 10 ? 2 : 4;
     uint32_t es = t.u16();
     vfh_entropy_reset(700 + es); vfh_clock_set_ms(1000000);
     matrixSslClose(); matrixSslOpen();
@@ -81,7 +81,16 @@ static void prop(Tape &t, Ctx &c) {
         std::string desc = fmt("A: identity=%s client versions=[%s] server versions=[%s] offered=[%s] server-enable/disable-ops=[%s] ems client=%d server=%d", ec ? "EC" : "RSA", setstr(cset).c_str(), setstr(sset).c_str(), os.c_str(), ds.c_str(), cems, sems);
         c.sample(desc); if (c.verbose) fprintf(stderr, "case: %s\n", desc.c_str());
         Pair p; Config cc, sc; cc.client = true; sc.client = false; cc.versions = cset; sc.versions = sset; cc.suites = offered; cc.auth = sc.auth = auth; cc.entropy_stream = 1; sc.entropy_stream = 2; cc.ems = cems; sc.ems = sems;
+        // an application that re-configures the options struct it keeps: earlier version-set calls with other sets, then the final set again
+        // (the model is the last call)
+        std::vector<uint8_t> chist, shist; if (!use_default_sets && t.chance(1, 3)) { int n = 1 + (int) t.below(2); for (int i = 0; i < n; i++) { chist.push_back((uint8_t) (1 + t.below(7))); shist.push_back((uint8_t) (1 + t.below(7))); } c.count("A:version-set-reconfigured"); desc += " (version sets re-configured:"; for (auto m : shist) desc += fmt(" s%u", m); for (auto m : chist) desc += fmt(" c%u", m); desc += ")"; }
+        int setter_fail = 0;
+        auto reconf = [&](const std::vector<uint8_t> &hist, uint8_t fin, bool client) { return [&hist, fin, client, &pick_set, &setter_fail](sslSessOpts_t &o) { if (hist.empty()) return; std::vector<uint8_t> seq = hist; seq.push_back(fin);
+            for (auto m : seq) { psProtocolVersion_t vs[4]; int nv = 0; for (int v : pick_set(m)) vs[nv++] = ver_bit(v);
+                int32 rc = client ? matrixSslSessOptsSetClientTlsVersions(&o, vs, nv) : matrixSslSessOptsSetServerTlsVersions(&o, vs, nv); if (rc < 0) setter_fail++; } }; };
+        cc.tweak = reconf(chist, cm, true); sc.tweak = reconf(shist, sm, false);
         int r1 = p.s.open(sc), r2 = r1 >= 0 ? p.c.open(cc) : -1;
+        VF_CHECK(setter_fail == 0, "harness-version-setter-refused", "a well-formed version-set call was refused; %s", desc.c_str());
         if (r1 < 0 || r2 < 0) { c.count("A:session-creation-refused"); return; }   // e.g. TLS 1.3 requested without any 1.3 suite
         for (auto &op : ops) { p.s.sel(); matrixSslSetCipherSuiteEnabledStatus(p.s.ssl, op.first, op.second ? PS_FALSE : PS_TRUE); }
         p.run(60);
@@ -154,6 +163,65 @@ static void prop(Tape &t, Ctx &c) {
         }
         if (restrict_groups) c.count((cflags && sflags && !(cflags & sflags)) ? "D:curve-sets-disjoint" : "D:curve-sets-restricted");
         c.nontrivial(fmt("D|%02x|%02x|%d|%d|%04x|%zu|%d|%d", cflags, sflags, ver, iauth, suite, offer.size() > 4 ? 5 : offer.size(), server_restricts, o.c_done));
+        return;
+    }
+    if (family == 4) {
+        // (E) TLS 1.3 key-exchange group: each application configures its sslSessOpts_t with a SEQUENCE of matrixSslSessOptsSetKeyExGroups
+        // calls (re-configuring or narrowing an options struct it reuses); the model is the list of the last call, or the library's
+        // default list when it made none.  The group in force is read from the key_share of the ServerHello / HelloRetryRequest on the wire.
+        static const uint16_t G[] = { 23, 24, 25, 29, 256 };
+        struct Calls { std::vector<std::vector<uint16_t>> lists; std::vector<unsigned> shares; };
+        auto gen_calls = [&](bool client) { Calls k; int n = (int) t.below(4);
+            for (int i = 0; i < n; i++) { std::vector<uint16_t> l; for (auto g : G) if (t.chance(g == 256 ? 1 : 2, g == 256 ? 6 : 5)) l.push_back(g); if (l.empty()) l.push_back(G[t.below(4)]);
+                for (size_t j = l.size(); j > 1; j--) std::swap(l[j - 1], l[t.below(j)]);
+                k.lists.push_back(l); k.shares.push_back(client ? (unsigned) t.below(l.size() + 1) : 0); }
+            return k; };
+        Calls ck = gen_calls(true), sk = gen_calls(false);
+        bool also12 = t.chance(1, 3);
+        auto lstr = [&](const Calls &k) { std::string o; for (size_t i = 0; i < k.lists.size(); i++) { o += "("; for (auto g : k.lists[i]) o += fmt("%u,", g); o += fmt(";shares=%u)", k.shares[i]); } return o.empty() ? std::string("default") : o; };
+        std::string desc = fmt("E: identity=%s versions=%s client SetKeyExGroups calls=%s server calls=%s", ec ? "EC" : "RSA", also12 ? "1.3+1.2" : "1.3", lstr(ck).c_str(), lstr(sk).c_str());
+        c.sample(desc); if (c.verbose) fprintf(stderr, "case: %s\n", desc.c_str());
+        // no call: the library default list (tls13GetDefaultGroups: the three NIST curves and x25519)
+        auto eff = [&](const Calls &k) { return k.lists.empty() ? std::vector<uint16_t>{ 23, 24, 29, 25 } : k.lists.back(); };
+        auto in_final = [&](const Calls &k, int g) { for (auto x : eff(k)) if (x == g) return true; return false; };
+        int call_fail = 0;
+        auto apply = [&](const Calls &k) { return [&k, &call_fail](sslSessOpts_t &o) { for (size_t i = 0; i < k.lists.size(); i++) { std::vector<uint16_t> l = k.lists[i]; if (matrixSslSessOptsSetKeyExGroups(&o, l.data(), (psSize_t) l.size(), (psSize_t) k.shares[i]) < 0) call_fail++; } }; };
+        Pair p; Config cc, sc; cc.client = true; sc.client = false; cc.versions = sc.versions = also12 ? std::vector<int>{ TLS13, TLS12 } : std::vector<int>{ TLS13 }; cc.auth = sc.auth = auth; cc.entropy_stream = 1; sc.entropy_stream = 2;
+        cc.tweak = apply(ck); sc.tweak = apply(sk);
+        if (p.s.open(sc) < 0 || p.c.open(cc) < 0) { c.count("E:session-creation-refused"); return; }
+        VF_CHECK(call_fail == 0, "harness-keyex-groups-call-refused", "a well-formed matrixSslSessOptsSetKeyExGroups call was refused; %s", desc.c_str());
+        std::vector<int> sh_groups; int hrr_group = -1; std::vector<int> ch_groups;
+        static const uint8_t HRR_RANDOM[8] = { 0xCF, 0x21, 0xAD, 0x74, 0xE5, 0x9A, 0x61, 0x11 };
+        p.mitm = [&](int dir, Bytes &w) {
+            Hello h = parse_hello(w); if (!h.ok || !h.ext_off) return;
+            size_t o = h.ext_off + 2, end = h.ext_off + 2 + h.ext_len;
+            while (o + 4 <= end) { size_t ety = (size_t) (w[o] << 8 | w[o + 1]), l = (size_t) (w[o + 2] << 8 | w[o + 3]); if (o + 4 + l > end) break;
+                if (dir == 1 && h.server && ety == 51 && l >= 2) { int g = w[o + 4] << 8 | w[o + 5]; if (memcmp(&w[h.random_off], HRR_RANDOM, 8) == 0) hrr_group = g; else sh_groups.push_back(g); }
+                if (dir == 0 && !h.server && ety == 10 && l >= 2) { ch_groups.clear(); for (size_t q = o + 6; q + 2 <= o + 4 + l; q += 2) ch_groups.push_back(w[q] << 8 | w[q + 1]); }
+                o += 4 + l; }
+        };
+        p.run(60); Outcome o = finish(p);
+        c.count(o.c_done && o.s_done ? "E:completed" : "E:failed"); if (hrr_group >= 0) c.count("E:hello-retry-request");
+        // the client offers exactly what it enabled
+        for (int g : ch_groups) VF_CHECK(in_final(ck, g), "client-offers-group-it-did-not-enable", "supported_groups lists %d; %s", g, desc.c_str());
+        if (hrr_group >= 0) { VF_CHECK(in_final(sk, hrr_group), "key-exchange-group-not-enabled-on-server", "HelloRetryRequest selects group %d; %s", hrr_group, desc.c_str());
+            if (o.c_done) VF_CHECK(in_final(ck, hrr_group), "key-exchange-group-not-offered-by-client", "client completed after a HelloRetryRequest for group %d; %s", hrr_group, desc.c_str()); }
+        bool disjoint = true; for (auto g : eff(ck)) if (in_final(sk, g)) disjoint = false;
+        if (o.c_done || o.s_done) {
+            VF_CHECK(o.c_done && o.s_done, "one-sided-completion", "client done=%d server done=%d; %s", o.c_done, o.s_done, desc.c_str());
+            if (o.c_ver == TLS13) {
+                VF_CHECK(sh_groups.size() == 1, "harness-serverhello-key-share-not-seen", "saw %zu ServerHello key shares; %s", sh_groups.size(), desc.c_str());
+                int g = sh_groups[0]; c.count(fmt("E:group:%d", g));
+                VF_CHECK(in_final(sk, g), "key-exchange-group-not-enabled-on-server", "handshake completed on group %d; %s", g, desc.c_str());
+                VF_CHECK(in_final(ck, g), "key-exchange-group-not-offered-by-client", "handshake completed on group %d; %s", g, desc.c_str());
+                VF_CHECK(!disjoint, "completed-with-disjoint-group-sets", "%s", desc.c_str());
+            }
+            VF_CHECK(o.data_ok, "application-data-did-not-round-trip", "%s", desc.c_str());
+        } else if (!disjoint && !also12) VF_CHECK(false, "common-group-not-negotiated", "both sides enable a common group but the TLS 1.3 handshake failed (client rc=%d server rc=%d); %s", p.c.last_rc, p.s.last_rc, desc.c_str());
+        if (disjoint) c.count("E:group-sets-disjoint");
+        bool narrowed = false; for (auto *k : { &ck, &sk }) if (k->lists.size() >= 2) { for (size_t i = 0; i + 1 < k->lists.size(); i++) if (k->lists[i].size() > k->lists.back().size()) narrowed = true; }
+        if (narrowed) c.count("E:options-struct-narrowed-by-later-call");
+        if (!ck.lists.empty() || !sk.lists.empty()) c.nontrivial(fmt("E|%zu|%zu|%d|%d|%d|%d", ck.lists.size(), sk.lists.size(), ck.lists.empty() ? 0 : (int) ck.lists.back().size(), sk.lists.empty() ? 0 : (int) sk.lists.back().size(), hrr_group >= 0, o.c_done));
         return;
     }
     if (family == 1) {
